@@ -475,6 +475,7 @@ def run(ctx):
     ctx.rule("R-6.2", "restore provenance of the scheduler stream (cross-reference to C07)", floor=1)
     ctx.rule("R-6.3", "no nondeterministic source reaches restart.toml or the data file (taint analysis)", floor=10)
     ctx.rule("R-6.4", "per-run state is per instance", floor=3)
+    ctx.rule("R-6.8", "the weight function is called with the same configuration keys when a path is accepted (run_md) and when it is loaded at a (re)start (load_paths)", floor=4)
     ctx.rule("R-6.7", "every configuration key is accessed under one section path across the package (what the run used is what the restart uses)", floor=20)
     ctx.rule("R-6.5", "the restart file is written from the final state of the step: nothing it serialises is modified after write_toml in treat_output", floor=1)
     ctx.attempt(r61, ctx)
@@ -484,11 +485,15 @@ def run(ctx):
     ctx.attempt(r66, ctx)
     from .shared import commit_is_final
     ctx.attempt(commit_is_final, ctx, "R-6.5")
-    from .shared import config_section_agreement
+    from .shared import config_section_agreement, callsite_config_agreement
+    ctx.attempt(callsite_config_agreement, ctx, "R-6.8", "calc_cv_vector", ["interfaces", "moves", "lambda_minus_one", "cap"], " (restart equivalence: a path loaded from disk is weighted like the same path when it was accepted)")
     ctx.attempt(config_section_agreement, ctx, "R-6.7", " - a path loaded at a restart is then weighted / treated with another setting than the same path during the run")
 
 
 VARIANTS = [
+    B("c06-load-paths-without-cap", REPEX, "                cap=self.cap,\n            )\n            self.add_traj(\n                ens=i,", "            )\n            self.add_traj(\n                ens=i,", "R-6.8", control=True),
+    B("c06-run-md-wrong-moves", TIS, '                md_items["mc_moves"],\n                picked[ens_num]["ens"]["tis_set"]["lambda_minus_one"],', '                md_items["interfaces"],\n                picked[ens_num]["ens"]["tis_set"]["lambda_minus_one"],', "R-6.8"),
+    K("c06-keep-load-paths-direct-keys", REPEX, "                cap=self.cap,\n            )\n            self.add_traj(\n                ens=i,", "                cap=self.config[\"simulation\"][\"tis_set\"].get(\"interface_cap\"),\n            )\n            self.add_traj(\n                ens=i,"),
     B("c06-cap-from-wrong-section", REPEX, "                cap=self.cap,\n            )\n            self.add_traj(\n                ens=i,", "                cap=self.config[\"simulation\"].get(\"interface_cap\", None),\n            )\n            self.add_traj(\n                ens=i,", "R-6.7", control=True, why="seeded C06_c"),
     K("c06-keep-cap-from-right-section-alias", REPEX, "                cap=self.cap,\n            )\n            self.add_traj(\n                ens=i,", "                cap=self.config[\"simulation\"][\"tis_set\"].get(\"interface_cap\", None),\n            )\n            self.add_traj(\n                ens=i,"),
     B("c06-rng-state-not-saved", REPEX, '        self.config["current"]["rng_state"] = self.rgen.bit_generator.state\n', "", "R-6.1", control=True),
